@@ -973,6 +973,11 @@ func (p *Parser) parseBlockStmt() *ast.BlockStmt {
 	stmt := &ast.BlockStmt{Token: p.curToken}
 
 	for !p.curTokenIs(token.END) {
+		// an unterminated block must not be waited on forever
+		if p.curTokenIs(token.EOF) || p.curTokenIs(token.ILLEGAL) {
+			break
+		}
+
 		block := p.parseStatement()
 
 		if block != nil {
